@@ -778,6 +778,13 @@ def lifecycle_cases():
                      ("RemoveBackend", 0), ("AddBackend", 3), ("DeactivateListener", 2), ("ActivateListener", 2), ("RemoveTcpFrontend", 0)])
     seq("data_udp", [("AddUdpListener", 0), ("AddCluster", 1), ("AddBackend", 1), ("AddUdpFrontend", 1), ("ActivateListener", 3),
                      ("DeactivateListener", 3), ("ActivateListener", 3), ("RemoveBackend", 1), ("AddBackend", 4), ("RemoveListener", 3)])
+    # a TCP and a UDP listener on the same ip:port (53/tcp + 53/udp): each owns its slot, keyed by (type, address);
+    # removing one must leave the other serving (datagram probes after the removal), then the soft stop completes
+    out.append(Case("samesock", [["worker"]] + [["send", v, k] for v, k in [
+        ("AddTcpListener", 0), ("AddUdpListener", 0), ("AddCluster", 1), ("AddBackend", 1), ("AddUdpFrontend", 1),
+        ("ActivateListener", 2), ("ActivateListener", 3), ("RemoveListener", 2), ("AddBackend", 4), ("RemoveBackend", 4),
+        ("AddTcpListener", 0), ("ActivateListener", 2), ("RemoveListener", 3), ("AddCluster", 0), ("AddBackend", 0), ("AddTcpFrontend", 0)]]
+        + [["view"], ["stop", "soft"], ["end"]], {}))
     hc = [["worker"]]
     for k in (0, 3, 6, 1, 4, 7):
         hc += [["send", "AddCluster", k], ["view"]]
@@ -791,6 +798,9 @@ def lifecycle_cases():
 def gen_cases(rng, tier):
     n = {"quick": 400, "thorough": 2400, "search": 600}.get(tier, 400)   # every stop-ended case keeps a block of 8 ports until its process exits
     out = lifecycle_cases()
+    # back-pressure on the command channel: a burst of queries with ~14 kB answers on a 20000-byte channel
+    out.append(Case("burst0", [["burst", 60], ["end"]], {}))
+    out.append(Case("burst1", [["burst", 25], ["worker"], ["send", "Status", 0], ["end"]], {}))
     # every verb x every selector at least once, fresh and after bootstrap
     allv = WORKER_VERBS + UNSERVED
     for b in (0, 1):
